@@ -1,3 +1,4 @@
+import Hm.C11Req
 import Hm.FuelMono
 import Hm.C15Fields
 import Hm.C04Whole
@@ -121,3 +122,5 @@ import Hm.Statements
 #print axioms C15_inflateRaw_truncated
 #print axioms C15_gzip_signature
 #print axioms C15_zlib_header
+#print axioms C11_request_reparse_partial
+#print axioms C11_request_reparse_rhymuri
